@@ -35,7 +35,7 @@ DEFAULT_CFG = {
     "storage": "csv", "auto_index": True, "flush_on_insert": True,
     "encoding": None, "dialect": "default", "bufsize": 8192,
     "copy_chunk": 0, "locale": "utf-8", "tz": "UTC", "access_mode": "r+",
-    "tmp_same_fs": False,
+    "tmp_same_fs": False, "triggers": False, "text_chunk": None,
 }
 
 QUERY_READS = ("search", "count", "contains", "get", "select")
@@ -93,6 +93,83 @@ def unjson(v):
     if isinstance(v, list):
         return [unjson(x) for x in v]
     return v
+
+
+def _valid_mapping(v, value_ok):
+    import collections.abc
+    if not isinstance(v, collections.abc.Mapping):
+        return False
+    return all(isinstance(k, str) for k in v) and all(
+        value_ok(x) for x in v.values())
+
+
+def spec_invalid(spec):
+    """Documented argument rules of update()/update_all(): True if the call
+    must be rejected before anything is written (decided from the arguments
+    alone, so it stays true under minimisation)."""
+    import collections.abc
+    import datetime as _dt
+    given = 0
+    for name in ("time", "measurement", "tags", "fields"):
+        if name not in spec:
+            continue
+        s = spec[name]
+        if "static" not in s:
+            given += 1
+            continue
+        v = s["static"]
+        if name == "time" and isinstance(v, dict) and "iso" in v:
+            v = time_from_json(v)
+        else:
+            v = unjson(v)
+        if not v:
+            continue  # falsy means "argument absent"
+        given += 1
+        if name == "time" and not isinstance(v, _dt.datetime):
+            return True
+        if name == "measurement" and not isinstance(v, str):
+            return True
+        if name == "tags" and not _valid_mapping(
+                v, lambda x: x is None or isinstance(x, str)):
+            return True
+        if name == "fields" and not _valid_mapping(
+                v, lambda x: x is None or (not isinstance(x, bool) and
+                                           isinstance(x, (int, float)))):
+            return True
+    for name in ("unset_tags", "unset_fields"):
+        if name not in spec:
+            continue
+        v = unjson(spec[name])
+        if not v:
+            continue
+        given += 1
+        if isinstance(v, str):
+            continue
+        if not isinstance(v, collections.abc.Iterable) or not all(
+                isinstance(x, str) for x in v):
+            return True
+    return given == 0
+
+
+def select_keys_invalid(keys):
+    keys = unjson(keys)
+    if isinstance(keys, str):
+        keys = [keys]
+    try:
+        keys = list(keys)
+    except TypeError:
+        return True
+    for k in keys:
+        if not isinstance(k, str):
+            return True
+        if k in ("time", "measurement"):
+            continue
+        if k.startswith("tags.") and len(k) > 5:
+            continue
+        if k.startswith("fields.") and len(k) > 7:
+            continue
+        return True
+    return False
 
 
 def well_typed(p):
@@ -225,7 +302,8 @@ class World:
         c = self.cfg
         self.disk = SimDisk(bufsize=c["bufsize"], copy_chunk=c["copy_chunk"],
                             locale_encoding=c["locale"],
-                            tmp_same_fs=c["tmp_same_fs"])
+                            tmp_same_fs=c["tmp_same_fs"],
+                            text_chunk=c["text_chunk"])
         self.clock = SimClock()
         self.seams = Seams()
         self.model = Model(csv_numbers=(c["storage"] == "csv"))
@@ -301,6 +379,31 @@ class World:
         self.pending = 0
         self.closed = False
         self.booted = True
+
+    def external_rewrite(self, style):
+        """Another program rewrites the (closed) database file in an
+        equivalent but non-canonical form: every cell quoted, LF row ends."""
+        data = self.disk.peek(DB_PATH)
+        if not data:
+            return
+        text = data.decode(self.encoding)
+        rows = list(csv.reader(io.StringIO(text, newline=""),
+                               **self.dialect))
+        kw = dict(self.dialect)
+        kw["quoting"] = csv.QUOTE_ALL
+        if style == "lf_quoted":
+            kw["lineterminator"] = "\n"
+        out = io.StringIO(newline="")
+        csv.writer(out, **kw).writerows(rows)
+        new = out.getvalue().encode(self.encoding)
+        # only if the csv module reads it back identically
+        back = list(csv.reader(io.StringIO(new.decode(self.encoding),
+                                           newline=""), **self.dialect))
+        if back != rows:
+            return
+        ino = self.disk.files[DB_PATH]
+        ino.data[:] = new
+        self.probe("file-rewritten-by-another-program")
 
     def can(self, what):
         if not self.csv:
@@ -631,6 +734,8 @@ class World:
                 self.disk.kill()
                 self.probe("abandoned")
             self.db = None
+            if op.get("external"):
+                self.external_rewrite(op["external"])
             c = op.get("cfg") or {}
             self.auto_index = c.get("auto_index", self.auto_index)
             self.mode = c.get("access_mode", self.mode)
@@ -694,7 +799,7 @@ class World:
                 return ("raises", io_err)
         if k in ("update", "update_all"):
             q = op.get("q") if k == "update" else None
-            if op.get("expect_raise") == "bad":
+            if spec_invalid(op["spec"]):
                 return ("raises", bad)
             if k == "update" and isinstance(q, dict) and "bad" in q:
                 return ("raises", bad)
@@ -746,7 +851,7 @@ class World:
                 return ("ret", mdl.points[idx[0]] if idx else None)
             if k == "select":
                 keys = op["keys"]
-                if op.get("bad_keys"):
+                if select_keys_invalid(keys):
                     return ("raises", bad + (AttributeError,))
                 ks = [keys] if isinstance(keys, str) else list(keys)
                 return ("ret", mdl.select(ks, q, m))
@@ -964,9 +1069,14 @@ class World:
             if cls == "time":
                 o.add("C08")
         else:
+            # a read (or a no-op) changed the stored contents or their order
             o = {"C15"}
             if self.csv:
                 o.add("C04")
+            if k in QUERY_READS:
+                o.add("C01")
+            elif k in GETTERS:
+                o.add("C07")
         if self.prop in ("C11", "C12", "C13") and self.faulted:
             o = o | {self.prop}
         return o
@@ -979,9 +1089,7 @@ class World:
 
         # 1. outcome kind
         if exp[0] == "maybe-raises" and out.kind == "ret":
-            self.check_state(ctx)
-            self.check_side_effects(ctx)
-            self.check_invariants(ctx)
+            self.check_all(ctx)
             return
         if exp[0] in ("raises", "maybe-raises"):
             if out.kind == "exc":
@@ -1006,9 +1114,7 @@ class World:
             elif exp[0] == "raises":
                 self.judge_should_have_raised(ctx)
             # state must be what the model says (unchanged / prefix)
-            self.check_state(ctx, after_raise=True)
-            self.check_side_effects(ctx)
-            self.check_invariants(ctx)
+            self.check_all(ctx, after_raise=True)
             return
         if out.kind == "exc":
             self.fail(self.owners_exc(op), "unexpected-exception",
@@ -1020,9 +1126,22 @@ class World:
             self.check_return(ctx)
 
         # 3. state, side effects, invariants
-        self.check_state(ctx)
+        self.check_all(ctx)
+
+    def check_all(self, ctx, after_raise=False):
+        """State vs model, side effects, invariants.  A divergence that
+        belongs to another property must not hide what this property's
+        differential oracles (index vs rebuild, listings, types) see in the
+        same step: they run before the foreign divergence ends the run."""
+        foreign = None
+        try:
+            self.check_state(ctx, after_raise=after_raise)
+        except Foreign as f:
+            foreign = f
         self.check_side_effects(ctx)
         self.check_invariants(ctx)
+        if foreign is not None:
+            raise foreign
 
     def judge_should_have_raised(self, ctx):
         i, op, k = ctx["i"], ctx["op"], ctx["k"]
@@ -1040,12 +1159,81 @@ class World:
                   "%s accepted an invalid value and returned %r: %s"
                   % (k, ctx["out"].value, _brief(op)), i)
 
+    def check_isolation(self, ctx):
+        """C10: a read through a Measurement handle never observes points
+        of another measurement (whatever else may be wrong with it)."""
+        i, op, k, got = ctx["i"], ctx["op"], ctx["k"], ctx["out"].value
+        name = op["m"]
+        mine = self.model.of(name)
+        bad = None
+        if k in ("search", "all", "iter"):
+            for p in got:
+                if p.m != name:
+                    bad = "returned a point of measurement %r" % (p.m,)
+                    break
+        elif k == "get":
+            if got is not None and got.m != name:
+                bad = "returned a point of measurement %r" % (got.m,)
+        elif k in ("count", "len"):
+            if got > len(mine):
+                bad = "returned %r, the measurement holds %d points" % (
+                    got, len(mine))
+        elif k == "contains":
+            if got and not mine:
+                bad = "returned True for an empty measurement"
+        elif k == "select":
+            keys = op["keys"] if isinstance(op["keys"], list) else \
+                [op["keys"]]
+            rows = {catalog.canon(canon_value(_numnorm(x)))
+                    for x in self.model.select(keys, None, name)}
+            for x in got:
+                if catalog.canon(canon_value(_numnorm(x))) not in rows:
+                    bad = "returned %r, which no point of the measurement " \
+                        "has" % (x,)
+                    break
+        elif k == "get_timestamps":
+            ts = {p.t for p in mine}
+            for t in got:
+                if t not in ts:
+                    bad = "returned %s, no point of the measurement has " \
+                        "that time" % (t,)
+                    break
+        elif k == "get_field_values":
+            vals = [p.fields[op["key"]] for p in mine
+                    if op["key"] in p.fields]
+            for v in got:
+                if not any(_same_num(v, w) for w in vals):
+                    bad = "returned value %r of another measurement" % (v,)
+                    break
+        elif k in ("get_tag_keys", "get_field_keys"):
+            ks = set(self.model.get_tag_keys(name) if k == "get_tag_keys"
+                     else self.model.get_field_keys(name))
+            extra = [x for x in got if x not in ks]
+            if extra:
+                bad = "returned keys %r of another measurement" % (extra,)
+        elif k == "get_tag_values":
+            mv = self.model.get_tag_values([], name)
+            for key, vals in got.items():
+                extra = [v for v in vals if v not in mv.get(key, [])]
+                if extra:
+                    bad = "returned tag values %r for key %r of another " \
+                        "measurement" % (extra, key)
+                    break
+        self.evals += 1
+        if bad:
+            self.fail({"C10"}, "handle-observes-other-measurement",
+                      "%s through the handle of %r %s: %s"
+                      % (k, name, _brief(op), bad), i)
+
     def check_return(self, ctx):
         i, op, k, exp, out = (ctx["i"], ctx["op"], ctx["k"], ctx["exp"],
                               ctx["out"])
         want = exp[1]
         got = out.value
         P = self.prop
+        if P == "C10" and op.get("via") == "h" and (
+                k in QUERY_READS or k in GETTERS):
+            self.check_isolation(ctx)
         if k in QUERY_READS:
             owners = {"C01"}
             timeq = queryast.has_attr(op["q"], "time")
@@ -1302,6 +1490,19 @@ class World:
                     self.nontrivial.add(_pkey(p))
             return
         owners = self.owners_state(op, d[0])
+        if op.get("via") == "h" and k in WRITES:
+            # C10: an operation through a handle must leave every other
+            # measurement alone
+            name = op["m"]
+            pm = ctx["pre_model"]
+            moved = {p.uid for p in pm.points if p.m == name}
+            rest_a = [p for p, q in zip(actual, expected)
+                      if q.uid not in moved] \
+                if len(actual) == len(expected) else None
+            rest_e = [q for q in expected if q.uid not in moved]
+            if rest_a is None or diff_points(rest_a, rest_e) is not None:
+                if k not in INSERTS:
+                    owners = owners | {"C10"}
         if after_raise:
             owners = owners | {"C11"}
             if ctx["exp"][0] == "raises" and ValueError in ctx["exp"][1]:
